@@ -464,6 +464,8 @@ def frozen_case(mon, rng, c):
             fz.set_bar(wd.index[bar], row)
             mon.cls("target/index-driven")
             mon.hit("index-driven-bars")
+            if rng.random() < 0.35:
+                provoke(mon, rng, wd, m)
             summ = monitored_update(mon, "frozen", wd, fz, m, bar, prices, dict(ctx, target="index-driven"))
             if summ is None:
                 return
@@ -480,6 +482,8 @@ def frozen_case(mon, rng, c):
         prices = {nm: F(row[nm]) for nm in wd.names}
         fz.set_bar(wd.index[bar], row)
         mon.cls(f"target/{band}")
+        if rng.random() < 0.35:
+            provoke(mon, rng, wd, m)
         summ = monitored_update(mon, "frozen", wd, fz, m, bar, prices, dict(ctx, target=band))
         if summ is None:
             return
@@ -487,6 +491,30 @@ def frozen_case(mon, rng, c):
         r = rng.random()
         if r < 0.5:
             relever(mon, rng, wd, m, prices)
+
+
+def provoke(mon, rng, wd, m):
+    """requests the market refuses (or harmlessly accepts) right before the bar ends: dropping a collateral flag, withdrawing a
+    whole collateral, borrowing far too much.  What update() then does must still follow from the positions alone."""
+    for _ in range(rng.randint(1, 3)):
+        sk = list(m.supply_keys)
+        if not sk:
+            return
+        t = rng.choice(sk)
+        k = rng.random()
+        if k < 0.45:
+            if m.get_supply(t).collateral:
+                r = Dr.call_op(m.change_collateral, t, False)
+                mon.cls(f"provoked/change_collateral/{'accepted' if r.ok else 'refused'}")
+        elif k < 0.8:
+            if m.get_supply(t).collateral and m.borrow_keys:
+                r = Dr.call_op(m.withdraw, t, m.get_supply(t).amount)
+                mon.cls(f"provoked/withdraw-all/{'accepted' if r.ok else 'refused'}")
+        else:
+            bt = rng.choice([x for x in wd.w.tokens])
+            r = Dr.call_op(m.borrow, bt, Decimal(10) ** 12)
+            mon.cls(f"provoked/borrow-huge/{'accepted' if r.ok else 'refused'}")
+    mon.hit("bars-with-provocations")
 
 
 def relever(mon, rng, wd, m, prices):
